@@ -3,6 +3,6 @@ From V.lib Require Import Base.
 From V.c19 Require Import C19Model.
 Require Import ExtrOcamlBasic.
 Separate Extraction
-  st trak sentry scfg avcc hvcc dac3 ec3sub dec3 mchild mhdr outcome op desc
+  avc_info st trak sentry scfg avcc hvcc dac3 ec3sub dec3 mchild mhdr outcome op desc
   run step empty_init mdia_children mhdr_name get_language set_language create_hdlr
   moov_add_trak elng_payload elng_decode trak_shape stpp_payload stpp_decode.
